@@ -104,13 +104,13 @@ pub fn check_structure<S: Src, const A: u8, const N: usize, const F: usize, cons
         }
         i += 1;
     }
-    check!(s, inb, "C15,C16:child pointer inside arena");
+    check!(s, inb, "INV,C15,C16:child pointer inside arena");
     if A & SHAPE != 0 {
-        check!(s, wf(&po.nodes, &po.reach), "C15:post-state well-formed");
+        check!(s, wf(&po.nodes, &po.reach), "INV,C15:post-state well-formed");
         if keeps_canon && pre.canon {
             check!(s, canon(&po.nodes, &po.reach), "C15:post-state canonical");
         }
-        check!(s, po.count == count(&po.nodes, &po.reach), "C04,C15:counter equals number of reachable entries");
+        check!(s, po.count == count(&po.nodes, &po.reach), "INV,C04,C15:counter equals number of reachable entries");
     }
     if A & SLOTS == 0 {
         return;
@@ -130,7 +130,7 @@ pub fn check_structure<S: Src, const A: u8, const N: usize, const F: usize, cons
         }
         i += 1;
     }
-    check!(s, fok, "C16:free list holds distinct unreachable slots");
+    check!(s, fok, "INV,C16:free list holds distinct unreachable slots");
     if pre.part {
         // every existing slot is reachable xor free
         let mut pok = true;
